@@ -50,6 +50,7 @@ structure St where
   pc        : Nat → PC
   kind      : Nat → Kind
   async     : Nat → Bool
+  budget    : Nat → Nat        -- retries an async request still has (doWithRetry gives up after maxRetryDuration)
   contacted : Nat → Bool       -- ghost: has this request called the issuer?
   issuedBy  : Nat → Nat        -- ghost: successful issuances per request
 
@@ -128,7 +129,9 @@ def step (due : Ver → Bool) (s : St) : Ev → Option St
       some { s with pc := upd s.pc p .failed }
     else none
   | .retry p =>
-    if s.pc p = .failed ∧ s.async p = true then some { s with pc := upd s.pc p .recheck } else none
+    if s.pc p = .failed ∧ s.async p = true ∧ 0 < s.budget p then
+      some { s with pc := upd s.pc p .recheck, budget := upd s.budget p (s.budget p - 1) }
+    else none
   | .giveUp p =>
     if s.pc p = .failed then some { s with pc := upd s.pc p (.release false) } else none
   | .rel p =>
